@@ -183,6 +183,7 @@ def run(chk):
     ok = chk.build_and_prove()
     # a broken proof / theorem file: enlarge the search for a failing input to the thorough scope
     tt.run_timed(chk, "C16", NAMES, oracle, ncase=None if ok else 2000)
+    tt.closed_world(chk, "C16", NAMES)
     chk.cov["rule"] = ("per operator: seeded instances (due times / windows / periods 0/5/10/20 ms as float seconds or "
                        "timedelta; scheduler passed to the operator or to subscribe; mapper tables indexed by "
                        "invocation, 12% raising) x seeded timelines of hand-driven hot sources on the proxy "
